@@ -2,7 +2,7 @@
    witnesses of the defects; rejection of ill-shaped / ill-placed tensors. *)
 From Coq Require Import List String Bool Arith Lia.
 Import ListNotations.
-From TD Require Import Model.C01_Tree Model.C01_Ops Model.C01_Scope Proofs.C01_TreeP Proofs.C01_NamesP Proofs.C01_BatchP Proofs.C01_SetP Proofs.C01_StepP.
+From TD Require Import Model.C01_Tree Model.C01_Ops Model.C01_Scope Proofs.C01_TreeP Proofs.C01_NamesP Proofs.C01_BatchP Proofs.C01_SetP Proofs.C01_StepP Proofs.C01_AutoP.
 From TD Require Model.C04_Tree.
 Open Scope string_scope.
 Open Scope list_scope.
@@ -35,6 +35,8 @@ Proof.
   - unfold b2o. cbn [fst]. apply set_bs_coh; auto.
   - unfold b2o. cbn [fst]. now apply set_names_coh.
   - unfold b2o. cbn [fst]. now apply refine_coh.
+  - unfold b2o. cbn [fst]. apply andb_true_iff in Hk as [Hk1 Hk2]. apply auto_bs_coh; auto.
+    destruct k as [kk|]; [|exact I]. split; [now apply Nat.leb_le|now apply Nat.leb_le].
   - now apply flatten_in_coh.
   - rewrite unflatten_noop; auto.
   - now apply select_in_coh.
